@@ -4,7 +4,7 @@
    on the verdict, the bytes of Example() and the shape of GetAST().  Renders (Proofs/JsonValueProofs.v): the texts a
    tree can be written as - RFC 8259 scalars without exponent (EnumScalar), any blank space between the tokens. *)
 From Coq Require Import List NArith Bool.
-From JS Require Import Base.Res Spec.JsonGrammar Model.EnumParse Model.JsonValue Proofs.EnumProofs Proofs.JsonValueProofs Proofs.EscapeProofs Proofs.ExampleRoundTrip.
+From JS Require Import Base.Res Spec.JsonGrammar Model.EnumParse Model.JsonValue Proofs.EnumProofs Proofs.JsonValueProofs Proofs.JsonValueSound Proofs.EscapeProofs Proofs.ExampleRoundTrip.
 Import ListNotations.
 
 (* every JSON text without exponent numbers and duplicate keys is accepted, whatever its whitespace, and the tree built
@@ -13,6 +13,13 @@ Theorem C03_accepted_any_layout : forall v s w1 w2, Renders v s -> ws w1 -> ws w
   jparse (w1 ++ s ++ w2) = Some v.
 Proof. exact jparse_complete. Qed.
 Print Assumptions C03_accepted_any_layout.
+
+(* and nothing else is accepted: a text the parser model accepts is such a rendering of the tree it returns, between
+   blanks, without duplicate keys - so acceptance by the model and "is a JSON text of the statement" coincide *)
+Theorem C03_accept_iff : forall s v, jparse s = Some v <->
+  exists w1 s' w2, s = w1 ++ s' ++ w2 /\ ws w1 /\ ws w2 /\ Renders v s' /\ keys_ok (S (depth v)) v = true.
+Proof. exact jparse_iff. Qed.
+Print Assumptions C03_accept_iff.
 
 (* the parser proper, with what may follow a value and an explicit fuel bound *)
 Theorem C03_parse_complete : forall v s, Renders v s -> forall r f, stop r -> (2 * length s <= f)%nat -> pvalue f (s ++ r) = Some (v, r).
